@@ -34,6 +34,21 @@ unsigned long long nondet_ull(void);
 double nondet_double(void);
 float nondet_float(void);
 
+/* Contracts of the two multi-byte appends (used with --replace-call-with-contract where the string has symbolic capacity; the
+ * bodies below are used where buffers are small).  Ghost index g_vk as in stubs/vstr.h.  n <= 8 at every call site. */
+static inline void C09_append_bytes(vstr* s, const char* p, size_t n)
+__CPROVER_requires(n <= 8 && (n == 0 || __CPROVER_r_ok(p, n)))
+__CPROVER_requires(s->size <= s->cap && n <= s->cap - s->size)
+__CPROVER_ensures(s->size == __CPROVER_old(s->size) + n)
+__CPROVER_ensures((g_vk >= __CPROVER_old(s->size) && g_vk < s->size) ==> s->data[g_vk] == p[g_vk - __CPROVER_old(s->size)])
+__CPROVER_assigns(s->size, __CPROVER_object_from(s->data + s->size));
+
+static inline void C09_append_fill(vstr* s, size_t n, char c)
+__CPROVER_requires(n <= 8 && s->size <= s->cap && n <= s->cap - s->size)
+__CPROVER_ensures(s->size == __CPROVER_old(s->size) + n)
+__CPROVER_ensures((g_vk >= __CPROVER_old(s->size) && g_vk < s->size) ==> s->data[g_vk] == c)
+__CPROVER_assigns(s->size, __CPROVER_object_from(s->data + s->size));
+
 static inline void C09_append_bytes(vstr* s, const char* p, size_t n)
 {
   for (size_t i = 0; i < n; i++) {
